@@ -9,12 +9,14 @@ import (
 // Logging configuration loaders of the three ordering classes.
 
 type ldCore struct {
-	Nm   string
-	Ord  int
-	Doc  []byte
-	Err  bool
-	Log  *mon.Lifecycle
-	Hits int
+	Nm  string
+	Ord int
+	Doc []byte
+	Err bool
+	// ErrOnce: only the first call fails (a source that is not reachable yet)
+	ErrOnce bool
+	Log     *mon.Lifecycle
+	Hits    int
 	// Probe, when set, runs inside LoadConfig before the document is returned (a loader that inspects
 	// the configuration loaded so far, profile / overlay style).
 	Probe func()
@@ -26,7 +28,7 @@ func (l *ldCore) load() ([]byte, error) {
 	if l.Probe != nil {
 		l.Probe()
 	}
-	if l.Err {
+	if l.Err || (l.ErrOnce && l.Hits == 1) {
 		return nil, errors.New("injected fault: loader " + l.Nm)
 	}
 	return l.Doc, nil
